@@ -1,0 +1,43 @@
+//go:build verif
+
+package dagsync
+
+// Contracts for the deductive checks in /verif (comment-only; no code).
+
+//@ nonnil log
+
+// ---------------------------------------------------------------------------
+// C14 / C15: notifications and shutdown
+
+// The latest-synced value is recorded before the notification is sent, and the
+// notification carries the CID, publisher and count of this sync.
+//@ func (*handler).sendSyncFinishedEvent
+//@   property C14
+//@   requires h != nil && h.subscriber != nil && h.subscriber.inEvents != nil
+//@   mayblock send:inEvents
+//@   ensures-local count("call:setLatestSync") == 1 && count("send:inEvents") == 1 && before("call:setLatestSync", "send:inEvents")
+//@   ensures-local evarg("send:inEvents", 1) == str(c.str) && evarg("send:inEvents", 2) == str(h.peerID) && evarg("send:inEvents", 3) == count
+//@   at call setLatestSync#1: assert arg1 == h.peerID && arg2 == c
+
+// Close runs the shutdown sequence exactly once.
+//@ func (*Subscriber).Close
+//@   property C15
+//@   requires s != nil
+
+// Shutdown order: signal closing; refuse and then await explicit syncs; close
+// the receiver and await the watcher; await announce-triggered syncs; only then
+// stop the event distributor.
+//@ func (*Subscriber).doClose
+//@   property C15
+//@   requires s != nil && s.closing != nil && !closed(s.closing) && s.inEvents != nil && !closed(s.inEvents) && !held(s.expSyncMutex) && s.httpPeerstore != nil
+//@   requires s.receiver != nil ==> s.watchDone != nil
+//@   ensures-local count("close:closing") == 1 && count("close:inEvents") == 1
+//@   ensures-local before("close:closing", "wg.wait:expSyncWG") && before("wg.wait:expSyncWG", "wg.wait:asyncWG") && before("wg.wait:asyncWG", "close:inEvents")
+//@   ensures-local count("call:Close") >= 1 ==> before("wg.wait:expSyncWG", "call:Close") && before("call:Close", "recv:watchDone") && before("recv:watchDone", "wg.wait:asyncWG")
+//@   ensures s.expSyncClosed
+
+// Registering a listener must not block forever once the subscriber is closed.
+//@ func (*Subscriber).OnSyncFinished
+//@   property C15 C14
+//@   requires s != nil && s.addEventChan != nil && s.closing != nil
+//@   shutdown closing
